@@ -1,5 +1,5 @@
 (* Properties_C05.v — a cached record lives exactly as long as its TTL and expires exactly once. *)
-From QV Require Import Base Fields SrcFacts Msg SrcDecisions Cache CacheSpec CacheProofs CacheAccept.
+From QV Require Import Base Fields SrcFacts Msg SrcDecisions Cache CacheSpec CacheProofs CacheAccept CacheLate.
 Local Open Scope Z_scope.
 
 (* every state reached by a script of additions (TTL <= 2 000 000 s, jitter below the bound read from
@@ -110,3 +110,32 @@ Example C05_acceptor_discriminates :
   mon_cache [CAdd a 0; CAdv 1000] [[]; [w 500; w 850; w 900; w 950; OSig 1000 (Expired a) [a]]] = Some (1%N, 3%N) /\
   mon_cache [CAdd a 0; CAdd (set_ttl 0 a) 0; CLookup None 255] [[]; [OSig 0 (Expired a) []]; [OLookup [a]]] = Some (2%N, 8%N).
 Proof. vm_compute. unfold ttl_ok. cbn. repeat split; try lia; try discriminate. Qed.
+
+(* ------------------------------------------------------------------ late firings (CacheLate.v)
+   the invariant survives a timeout serviced at ANY instant at or after its deadline, hence holds after every history
+   of ADD / ADV / ADVB / LATE / LOOKUP operations ... *)
+Theorem C05_invariant_after_any_history_late_firings_included ops : Forall wf_op_late ops ->
+  GInv (fst (cstate_after (0, empty_cache) ops)) (snd (cstate_after (0, empty_cache) ops)).
+Proof. exact (crun_GInv_late ops). Qed.
+Print Assumptions C05_invariant_after_any_history_late_firings_included.
+
+(* ... and then "never lingers" does not depend on how punctual the timer was: an exact advance past the last trigger of
+   every entry - the end of every lifetime - leaves the cache empty, and every lookup returns nothing *)
+Theorem C05_nothing_lingers now c t name type :
+  GInv now c -> now <= t -> (forall e, In e (c_entries c) -> forall x, In x (e_trig e) -> x <= t) ->
+  let c' := snd (fst (cstep (now, c) (CAdv t))) in
+  c_entries c' = [] /\ lookup name type c' = [].
+Proof. exact (nothing_lingers now c t name type). Qed.
+Print Assumptions C05_nothing_lingers.
+
+Example C05_example_late :
+  let a := set_ttl 1 (set_addr (A4 1) (set_type 1 (set_name (Some [97; 46]%N) default_record))) in
+  let b := set_ttl 1 (set_addr (A4 2) (set_type 1 (set_name (Some [98; 46]%N) default_record))) in
+  Forall wf_op_late [CAdd a 0; CLate 1300; CAdd b 0; CAdv 2300] /\
+  concat (skipn 1 (crun_g (0, empty_cache) [CAdd a 0; CLate 1300; CAdd b 0; CAdv 2300; CLookup None 255])) =
+  [OSig 1300 (Expired a) []; OSig 1800 (ShouldQuery b) [b]; OSig 2150 (ShouldQuery b) [b]; OSig 2200 (ShouldQuery b) [b];
+   OSig 2250 (ShouldQuery b) [b]; OSig 2300 (Expired b) []; OLookup []].
+Proof.
+  split; [|vm_compute; reflexivity].
+  repeat apply Forall_cons; try apply Forall_nil; cbn [wf_op_late]; try exact I; split; try (unfold ttl_ok; vm_compute; discriminate); vm_compute; split; congruence.
+Qed.
